@@ -108,6 +108,15 @@ func roundFloat32(t ggql.Type, v interface{}) interface{} {
 					}
 				}
 			}
+			// Whether the defaults of the input type's own fields have been filled into a value
+			// yet depends on when ggql last coerced it (a field added by a later 'extend input'
+			// reaches a stored value only with the next coercion): a missing member and a member
+			// holding the field's default say the same.
+			for _, f := range tt.Fields() {
+				if _, has := out[f.Name()]; !has && f.Default != nil {
+					out[f.Name()] = roundFloat32(f.Type, f.Default)
+				}
+			}
 			return out
 		}
 	}
